@@ -108,3 +108,121 @@ PROPS = {
         assumptions=["BitVec 64 shifts equal the C++ shifts for counts < 64 (counts of 64 are excluded by lowMask in the repaired code)",
                      "Lean compiler agrees with the kernel semantics of the model definitions"]),
 }
+
+
+# --------------------------------------------------------------------------- dictionary battery
+FC_KINDS = ["PFC", "RPFC", "HTFC", "HHTFC", "RPHTFC"]
+ORDERED_KINDS = FC_KINDS + ["RPDAC", "FMINDEX"]
+HASH_KINDS = ["HASHHF", "HASHRPF", "HASHUFFDAC", "HASHRPDAC", "BLOCKS"]
+ALL_KINDS = FC_KINDS + ["RPDAC"] + HASH_KINDS + ["FMINDEX", "XBW"]
+PREFIX_KINDS = FC_KINDS + ["RPDAC", "FMINDEX", "XBW"]
+SUBSTR_KINDS = ["FMINDEX", "XBW"]
+EXACT_ID_KINDS = ORDERED_KINDS + ["XBW"]   # kinds whose IDs the model predicts (hash kinds join when modelled)
+
+
+def dict_battery(tier, rng):
+    """List of (name, S) — the dictionaries every dictionary-level property runs on."""
+    thorough = tier == "thorough"
+    out = []
+    r = rng.fork("battery")
+    g1 = gen.g1_all(2)
+    if not thorough:
+        g1 = r.sample(g1, 24)
+    for i, S in enumerate(g1):
+        out.append(("g1a%d" % i, S))
+    for i, S in enumerate(gen.g1_subsets(r, 400 if thorough else 24, 3)):
+        out.append(("g1b%d" % i, S))
+    ns = [1, 2, 3, 4, 5, 7, 8, 9, 16, 17, 37, 100, 257] + ([1000, 3000] if thorough else [])
+    combos = [(26, "short"), (26, "mixed"), (2, "short"), (2, "mid"), (4, "mixed"), (253, "mixed"), (26, "long"), (1, "mixed"), (4, "mid")]
+    k = 0
+    for n in ns:
+        for (a, lm) in (combos if thorough else r.sample(combos, 3)):
+            if lm == "long" and n > 100:
+                continue
+            S = gen.g2_dict(r, n, a, lm)
+            if S:
+                out.append(("g2_%d" % k, S))
+                k += 1
+    for lcp in (126, 127, 128, 129) + ((16383, 16384) if thorough else ()):
+        out.append(("g3lcp%d" % lcp, gen.g3_lcp_chain(r, lcp, 3)))
+    for kk in (1, 2, 5):
+        out.append(("g3sym%d" % kk, gen.g3_single_symbols(kk)))
+    out.append(("g3states", gen.us_states()))
+    out.append(("g3states12", gen.us_states()[:12]))
+    out.append(("g3abcb", [b"ab", b"abc", b"b"]))
+    out.append(("g3one", [b"hello"]))
+    out.append(("g3long1", [b"x" * 300]))
+    out.append(("g3edges", [bytes([2]), bytes([2, 2]), bytes([2, 254]), bytes([254]), bytes([254, 2]), bytes([254, 254, 254])]))
+    return out
+
+
+def param_vectors(kind, rng, n, tier, many=False):
+    """Legal parameter vectors for a kind (one or a few per dictionary)."""
+    r = rng
+    if kind in FC_KINDS:
+        bs = [2, 3, 4, 5, 8, 16, max(2, n), n + 1]
+        return [{"b": b} for b in (bs if many else r.sample(bs, 2))]
+    if kind in ("HASHHF", "HASHRPF", "HASHUFFDAC", "HASHRPDAC"):
+        ovs = [0, 1, 10, 25, 100]
+        return [{"ov": o} for o in (ovs if many else r.sample(ovs, 2))]
+    if kind == "BLOCKS":
+        cuts = [1, 8, 64, 1 << 27]
+        vs = [{"ov": r.choice([0, 25]), "cut": c, "thr": t} for c in cuts for t in (1, 2, 4)]
+        return vs if many else r.sample(vs, 2)
+    if kind == "FMINDEX":
+        vs = [{"rrr": rr, "bs": bs, "bwt": bw} for rr in (0, 1) for bs in (4, 20, 32) for bw in (1, 2, 5, 16, 64)]
+        return vs if many else r.sample(vs, 2)
+    return [{}]
+
+
+def kind_cases(tier, rng, kinds, ops_fn, phases=("built", "loaded"), many=False, battery=None, name="d"):
+    """Builds the case list: battery × kinds × parameter vectors × phases.
+    ops_fn(kind, params, S, rng) -> list of ops."""
+    cases = []
+    battery = battery if battery is not None else dict_battery(tier, rng)
+    for dname, S in battery:
+        for kind in kinds:
+            r = rng.fork(dname + kind)
+            for pv in param_vectors(kind, r, len(S), tier, many):
+                ops = ops_fn(kind, pv, S, r)
+                if not ops:
+                    continue
+                for ph in phases:
+                    pre = []
+                    if ph == "loaded":
+                        pre = [["reload", "own", r.range(1, 3) if kind in ("HASHHF", "HASHRPF") else 1]]
+                    elif ph == "generic":
+                        pre = [["reload", "generic", r.range(1, 3) if kind in ("HASHHF", "HASHRPF") else 1]]
+                    cid = "%s_%s_%s_%s_%s" % (name, dname, kind, "".join("%s%s" % kv for kv in sorted(pv.items())), ph[0])
+                    cases.append((cid, "dict", kind, pv, S, pre + ops))
+    return cases
+
+
+def c01_ops(kind, pv, S, r):
+    cap = 64
+    members = S if len(S) <= cap else r.sample(S, cap)
+    ops = []
+    if kind in EXACT_ID_KINDS:
+        ops += [["loc", hx(s)] for s in members]
+        ids = list(range(1, len(S) + 1))
+        if len(ids) > cap:
+            ids = r.sample(ids, cap) + [1, len(S)]
+        ops += [["ext", i] for i in ids]
+    else:
+        ops += [["rt", hx(s)] for s in members]
+    ops.append(["exts"])
+    return ops
+
+
+def c01_streams(tier, rng):
+    return [StreamSet("roundtrip", "asan", kind_cases(tier, rng, ALL_KINDS, c01_ops))]
+
+
+PROPS["C01"] = PropSpec(
+    c01_streams,
+    rule="battery (G1 small-scope subsets over {a,b}, G2 structured random with deep lcp chains, G3 proof-directed boundaries) × 13 kinds × "
+         "parameter vectors × {built, reloaded}; per case locate(s) for members, extract(i) for IDs, and the sorted multiset of extract(1..n); "
+         "non-trivial = at least 2 strings; distinct by hash of (kind, params, strings, ops)",
+    partial=["kinds without an exact Lean model are compared with the specification only (CSD/Spec.lean)"],
+    explanation="refinement of the kind's model to Spec.locate/Spec.extract; the harness compares every answer of the real code with it",
+    assumptions=["the input contract validDict (sorted, duplicate-free, bytes 0x02..0xFE)"])
